@@ -2321,6 +2321,8 @@ fn hup_stream(seed: u64, n: u64, cov: &mut Coverage, out: &mut dyn Write) -> u64
             check_quorum: rng.chance(50),
             pre_vote: rng.chance(50),
             max_election_tick: et + (1usize << 40),
+            // the page size of the scan for unapplied membership changes (has_unapplied_conf_changes)
+            max_committed_size_per_ready: [u64::MAX, u64::MAX, 0, 1, 12, 40][rng.below(6) as usize],
             ..Default::default()
         };
         let mut cs = ConfState::default();
@@ -2356,7 +2358,8 @@ fn hup_stream(seed: u64, n: u64, cov: &mut Coverage, out: &mut dyn Write) -> u64
         }
         let s = rng.below(4);
         let snap = if s > 0 { (s, 1) } else { (0, 0) };
-        let k = 1 + rng.below(5);
+        let kmax = if rng.chance(30) { 9 } else { 5 };
+        let k = 1 + rng.below(kmax);
         let mut ents = vec![];
         for j in 0..k {
             let mut e = Entry::default();
@@ -2378,7 +2381,7 @@ fn hup_stream(seed: u64, n: u64, cov: &mut Coverage, out: &mut dyn Write) -> u64
                     e.data = cc.write_to_bytes().unwrap().into();
                 }
             } else {
-                e.data = vec![b'h', j as u8].into();
+                e.data = if rng.chance(25) { vec![b'H'; 10 + rng.below(30) as usize].into() } else { vec![b'h', j as u8].into() };
             }
             ents.push(e);
         }
